@@ -266,7 +266,7 @@ def predicts_rowmin_at_column(case, cells):
 def run(tier, seed, replay=None):
     v = common.Verdict("C12", tier, seed)
     rng = common.rng_for(seed, "C12", tier)
-    n = 1500 if tier == "quick" else 40000
+    n = 4000 if tier == "quick" else 40000
     cases = [gen_case(rng, i) for i in range(n)]
     if replay:
         cases = [json.load(open(replay))["case"]]
